@@ -36,8 +36,61 @@ def kwargs(fl, use_unitary=True):
     return "(" + ", ".join(ks) + ")" if ks else ""
 
 
-def prelude():
-    out = [PRELUDE]
+# argument type shapes: (annotation, carries qubits) — qubits at nesting depth 0..3 and classical look-alikes
+SHAPES = [
+    ("qubit", True),
+    ("array[qubit, 2]", True),
+    ("tuple[qubit, qubit]", True),
+    ("array[array[qubit, 2], 2]", True),
+    ("array[tuple[qubit, qubit], 2]", True),
+    ("tuple[array[qubit, 2], int]", True),
+    ("tuple[tuple[qubit, int], int]", True),
+    ("array[array[array[qubit, 1], 2], 2]", True),
+    ("tuple[int, tuple[int, array[qubit, 2]]]", True),
+    ("SQ", True),
+    ("array[SQ, 2]", True),
+    ("tuple[int, SN]", True),
+    ("int", False),
+    ("array[int, 2]", False),
+    ("array[array[int, 2], 2]", False),
+    ("tuple[array[int, 2], float]", False),
+    ("SC", False),
+    ("array[tuple[SC, int], 2]", False),
+]
+STRUCTS = """
+@guppy.struct
+class SQ:
+    q: qubit
+    n: int
+
+@guppy.struct
+class SN:
+    a: array[SQ, 1]
+    x: float
+
+@guppy.struct
+class SC:
+    a: int
+    b: tuple[float, array[int, 2]]
+"""
+
+
+def callee(kind, cf, sh):
+    """name of the declared callee of family `kind` with flag set cf whose qubit-ish parameter has shape sh"""
+    return f"{kind}{cf}" if sh == 0 else f"{kind}_s{sh}_{cf}"
+
+
+def prelude(shapes=()):
+    out = [PRELUDE, STRUCTS]
+    for sh in sorted(set(shapes) - {0}):
+        ann = SHAPES[sh][0]
+        for cf in range(8):
+            k = kwargs(cf)
+            out += [f"@guppy.declare{k}\ndef q_s{sh}_{cf}(a: {ann}) -> None: ...",
+                    f"@guppy.declare{k}\ndef qi_s{sh}_{cf}(a: {ann}) -> int: ...",
+                    f"@guppy.declare{k}\ndef qb_s{sh}_{cf}(a: {ann}) -> bool: ...",
+                    f"@guppy.declare{k}\ndef m_s{sh}_{cf}(a: {ann}, n: int) -> None: ...",
+                    f"@guppy.declare{k}\ndef m2_s{sh}_{cf}(n: int, a: {ann}) -> None: ..."]
     for cf in range(8):
         k = kwargs(cf)
         out += [f"@guppy.declare{k}\ndef q{cf}(q: qubit) -> None: ...",
@@ -49,25 +102,27 @@ def prelude():
     return "\n".join(out) + "\n"
 
 
-# position -> (lines(cf), features)     features: q = passes a qubit, loop / assign / sub
+# position -> (lines(N, cf), features)   N(kind) = callee name; `r` is the argument of the shape under test,
+# `q` a plain qubit.  features: q = passes the shaped argument, loop / assign / sub
 POS = {
-    "stmt": (lambda cf: [f"q{cf}(q)"], {"q"}),
-    "arg_after_qubit": (lambda cf: [f"m7(q, qi{cf}(r))"], {"q"}),
-    "arg_before_qubit": (lambda cf: [f"m2_7(qi{cf}(r), q)"], {"q"}),
-    "arg_of_classical": (lambda cf: [f"c0(qi{cf}(r))"], {"q"}),
-    "classical_only": (lambda cf: [f"c{cf}(n)"], set()),
-    "mixed_args": (lambda cf: [f"m{cf}(q, n)"], {"q"}),
-    "assign_value": (lambda cf: [f"x = qi{cf}(r)"], {"q", "assign"}),
-    "if_cond": (lambda cf: [f"if qb{cf}(r):", "    q7(q)"], {"q"}),
-    "if_compare": (lambda cf: [f"if qi{cf}(r) > n:", "    q7(q)"], {"q"}),
-    "elif_cond": (lambda cf: ["if n > 0:", "    q7(q)", f"elif qb{cf}(r):", "    q7(r)"], {"q"}),
-    "and_cond": (lambda cf: [f"if n > 0 and qb{cf}(r):", "    q7(q)"], {"q"}),
-    "while_cond": (lambda cf: [f"while qb{cf}(r):", "    q7(q)"], {"q", "loop"}),
-    "ifexp_cond": (lambda cf: [f"c7(1 if qb{cf}(r) else 2)"], {"q"}),
-    "subscript_read": (lambda cf: [f"c7(xs[qi{cf}(r)])"], {"q", "sub"}),
-    "subscript_assign": (lambda cf: [f"xs[qi{cf}(r)] = n"], {"q", "assign", "sub"}),
-    "after_barrier": (lambda cf: ["barrier(q, r)", f"q{cf}(q)"], {"q"}),
-    "return_value": (lambda cf: [f"return qi{cf}(r)"], {"q"}),
+    "stmt": (lambda N, cf: [f"{N('q')}(r)"], {"q"}),
+    "arg_after_qubit": (lambda N, cf: [f"m7(q, {N('qi')}(r))"], {"q"}),
+    "arg_before_qubit": (lambda N, cf: [f"m2_7({N('qi')}(r), q)"], {"q"}),
+    "arg_of_classical": (lambda N, cf: [f"c0({N('qi')}(r))"], {"q"}),
+    "classical_only": (lambda N, cf: [f"c{cf}(n)"], set()),
+    "mixed_args": (lambda N, cf: [f"{N('m')}(r, n)"], {"q"}),
+    "mixed_args_rev": (lambda N, cf: [f"{N('m2_')}(n, r)".replace("m2__s", "m2_s")], {"q"}),
+    "assign_value": (lambda N, cf: [f"x = {N('qi')}(r)"], {"q", "assign"}),
+    "if_cond": (lambda N, cf: [f"if {N('qb')}(r):", "    q7(q)"], {"q"}),
+    "if_compare": (lambda N, cf: [f"if {N('qi')}(r) > n:", "    q7(q)"], {"q"}),
+    "elif_cond": (lambda N, cf: ["if n > 0:", "    q7(q)", f"elif {N('qb')}(r):", "    q7(q)"], {"q"}),
+    "and_cond": (lambda N, cf: [f"if n > 0 and {N('qb')}(r):", "    q7(q)"], {"q"}),
+    "while_cond": (lambda N, cf: [f"while {N('qb')}(r):", "    q7(q)"], {"q", "loop"}),
+    "ifexp_cond": (lambda N, cf: [f"c7(1 if {N('qb')}(r) else 2)"], {"q"}),
+    "subscript_read": (lambda N, cf: [f"c7(xs[{N('qi')}(r)])"], {"q", "sub"}),
+    "subscript_assign": (lambda N, cf: [f"xs[{N('qi')}(r)] = n"], {"q", "assign", "sub"}),
+    "after_barrier": (lambda N, cf: ["barrier(q)", f"{N('q')}(r)"], {"q"}),
+    "return_value": (lambda N, cf: [f"return {N('qi')}(r)"], {"q"}),
 }
 MODS = [None, ("dagger",), ("control",), ("power",), ("dagger", "control"), ("control", "power"),
         ("dagger", "power"), ("dagger", "control", "power"), ("dagger", "dagger")]
@@ -88,17 +143,24 @@ def mod_flags(m):
 
 
 def case_name(c):
-    return "f_%d_%s_%d_%s" % (c["F0"], "none" if c["M"] is None else "".join(x[0] for x in c["M"]), c["cf"], c["pos"])
+    return "f_%d_%s_%d_%s%s" % (c["F0"], "none" if c["M"] is None else "".join(x[0] for x in c["M"]), c["cf"], c["pos"],
+                                "" if not c.get("sh") else "_s%d" % c["sh"])
 
 
 def case_src(c):
     lines, _ = POS[c["pos"]]
-    body = lines(c["cf"])
+    sh = c.get("sh", 0)
+
+    def N(kind):
+        if kind == "m2_":
+            return f"m2_{c['cf']}" if sh == 0 else f"m2__s{sh}_{c['cf']}"
+        return callee(kind, c["cf"], sh)
+    body = lines(N, c["cf"])
     ret = "int" if c["pos"] == "return_value" else "None"
     if c["M"] is not None:
         body = ["with " + ", ".join(MOD_SRC[m] for m in c["M"]) + ":"] + ["    " + l for l in body]
     return (f"@guppy{kwargs(c['F0'], use_unitary=c['cf'] % 2 == 0)}\n"
-            f"def {case_name(c)}(q: qubit, r: qubit, c: qubit, xs: array[int, 4], n: int) -> {ret}:\n"
+            f"def {case_name(c)}(q: qubit, r: {SHAPES[sh][0]}, c: qubit, xs: array[int, 4], n: int) -> {ret}:\n"
             + "\n".join("    " + l for l in body) + "\n")
 
 
@@ -108,7 +170,7 @@ def expected(c):
     inner = mod_flags(c["M"])
     ctx = c["F0"] | inner
     reasons = []
-    if "q" in feats and (ctx & ~c["cf"] & 7):
+    if "q" in feats and SHAPES[c.get("sh", 0)][1] and (ctx & ~c["cf"] & 7):
         reasons.append("call")
     if ctx & 2:
         for k in ("loop", "assign", "sub"):
@@ -126,6 +188,20 @@ def all_cases():
     return out
 
 
+def shaped_cases():
+    """every argument shape in every call position, over a reduced context grid"""
+    out = []
+    for sh in range(1, len(SHAPES)):
+        for pos in POS:
+            if pos == "classical_only":
+                continue
+            for F0, M, cf in ((1, None, 0), (7, None, 5), (0, ("control",), 2), (4, ("dagger",), 4), (5, None, 7)):
+                if pos == "return_value" and M is not None:
+                    continue
+                out.append({"F0": F0, "M": M, "cf": cf, "pos": pos, "sh": sh})
+    return out
+
+
 def failure_class(c, exp, verdict):
     """Identity of a specification disagreement: position + which part of the context the
     implementation ignored (for wrongly accepted calls) or the wrong rejection kind."""
@@ -135,16 +211,18 @@ def failure_class(c, exp, verdict):
             miss_outer = (c["F0"] & ~inner & ~c["cf"] & 7) != 0 and (inner & ~c["cf"] & 7) == 0
             where = "with-body" if c["M"] is not None else "function-body"
             src = "flags-of-enclosing-context-only" if (c["M"] is not None and miss_outer) else "context-flags"
-            return f"accepted-call:{c['pos']}:{where}:{src}"
+            shape = f":arg-type={SHAPES[c['sh']][0]}" if c.get("sh") else ""
+            return f"accepted-call:{c['pos']}:{where}:{src}{shape}"
         return f"accepted-under-dagger:{c['pos']}:{'with' if c['M'] is not None else 'function'}:{'+'.join(exp)}"
-    return f"rejected-valid:{c['pos']}:{'with' if c['M'] is not None else 'function'}:{verdict}"
+    shape = f":arg-type={SHAPES[c['sh']][0]}" if c.get("sh") and not (c["pos"] == "ifexp_cond" and verdict == "assign") else ""
+    return f"rejected-valid:{c['pos']}:{'with' if c['M'] is not None else 'function'}:{verdict}{shape}"
 
 
 # ---------------------------------------------------------------------------------- model side
 def coq_node(d):
     k = d[0]
     if k == "C":
-        return "(NCall %d [%s])" % (d[1], "; ".join("(%s, %s)" % (coq_node(a), "true" if q else "false") for a, q in d[2]))
+        return "(NCall %d [%s])" % (d[1], "; ".join("(%s, %s)" % (coq_node(x[0]), "true" if x[1] else "false") for x in d[2]))
     if k == "X":
         return "NExempt"
     if k == "P":
@@ -152,6 +230,47 @@ def coq_node(d):
     if k == "A":
         return "(NAssign [%s] %s)" % ("; ".join(coq_node(a) for a in d[1]), "None" if d[2] is None else "(Some %s)" % coq_node(d[2]))
     return "(NGeneric [%s])" % "; ".join(coq_node(a) for a in d[1])
+
+
+def coq_ty(t):
+    if t == "Q":
+        return "GQubit"
+    if t == "L":
+        return "GLeaf"
+    a = "[%s]" % "; ".join("None" if x is None else "(Some %s)" % coq_ty(x) for x in t[1])
+    if t[0] == "S":
+        return "(GStruct %s [%s])" % (a, "; ".join(coq_ty(x) for x in t[2]))
+    return "(%s %s)" % ("GOpaque" if t[0] == "O" else "GTuple", a)
+
+
+def ty_occurs(t):
+    """SPECIFICATION side in Python: a qubit occurs anywhere inside the (dumped) type"""
+    if t == "Q":
+        return True
+    if t == "L":
+        return False
+    return any(x is not None and ty_occurs(x) for x in t[1]) or (t[0] == "S" and any(ty_occurs(x) for x in t[2]))
+
+
+def arg_types(d, acc):
+    """collect (type dump, implementation's contain_qubit_ty answer) of every call argument below a dumped node"""
+    if d is None:
+        return
+    k = d[0]
+    if k == "C":
+        for x in d[2]:
+            acc.append((json.dumps(x[2]), x[1]))
+            arg_types(x[0], acc)
+    elif k == "P":
+        for x in d[2]:
+            arg_types(x, acc)
+    elif k == "A":
+        for x in d[1]:
+            arg_types(x, acc)
+        arg_types(d[2], acc)
+    elif k == "G":
+        for x in d[1]:
+            arg_types(x, acc)
 
 
 def coq_call(rec):
@@ -181,8 +300,18 @@ def generate(ctx):
 
 
 def run(ctx):
-    tinfo = generate(ctx)
-    info = ctx.coq_props()
+    # A fail-closed translator stop is a broken tie, but the search for a concrete failing program
+    # against the specification still runs (it does not need the model).
+    translator_error = None
+    try:
+        tinfo = generate(ctx)
+        info = ctx.coq_props()
+    except vlib.TranslatorError as e:
+        translator_error = str(e)
+        tinfo = {"translator_error": translator_error}
+        names = [f"{f.name}:{n}" for f in sorted(ctx.coqdir.glob("*.v")) for n in vlib.count_theorems(f)]
+        info = {"ok": False, "obligations": len(names), "discharged": 0, "axioms": [], "log": translator_error,
+                "failed": "translator: " + translator_error[:200], "theorems": names}
     if not info["ok"]:
         info["discharged"] = 0   # every theorem depends on GenUnitary.v; stale .vo files must not count
     r = vlib.rng(ctx.seed, "C24")
@@ -195,10 +324,14 @@ def run(ctx):
         for pos in POS:
             for inwith in (False, True):
                 pool = [c for c in rest if c["pos"] == pos and (c["M"] is not None) == inwith]
-                picked += r.sample(pool, min(len(pool), 14))
+                picked += r.sample(pool, min(len(pool), 9))
+        shaped = shaped_cases()
+        for sh in range(1, len(SHAPES)):     # every argument shape, 12 (position, context) combinations each
+            pool = [c for c in shaped if c["sh"] == sh and c not in corpus]
+            picked += r.sample(pool, min(len(pool), 12))
         cases = corpus + picked
     else:
-        cases = corpus + [c for c in cases if c not in corpus]
+        cases = corpus + [c for c in cases if c not in corpus] + [c for c in shaped_cases() if c not in corpus]
     # ---- implementation side, in chunks (one module per chunk)
     results, meta = {}, {}
     chunks = [cases[i:i + 400] for i in range(0, len(cases), 400)]
@@ -209,7 +342,7 @@ def run(ctx):
         meta_src.append(f"@guppy{'(' + ks + ')' if ks else ''}\ndef {nm}(q: qubit, c: qubit) -> None:\n    q7(q)\n    with control(c), power(2):\n        q7(q)\n")
         meta_names.append((nm, (u, c_, d, p)))
     for i, ch in enumerate(chunks):
-        module = prelude() + "\n".join(case_src(c) for c in ch) + ("\n" + "\n".join(meta_src) if i == 0 else "")
+        module = prelude({c.get("sh", 0) for c in ch}) + "\n".join(case_src(c) for c in ch) + ("\n" + "\n".join(meta_src) if i == 0 else "")
         out = json.loads(ctx.impl("impl_unitary.py", {"module": module, "funcs": [case_name(c) for c in ch],
                                                       "compile": [n for n, _ in meta_names] if i == 0 else []}))
         meta.update(out.pop("_meta"))
@@ -220,7 +353,7 @@ def run(ctx):
         for k, rec in enumerate(results[case_name(c)]["calls"]):
             recs.append((c, k, rec))
     model = None
-    have_gen = (vlib.COQ / "C24" / "GenUnitary.vo").exists()
+    have_gen = translator_error is None and (vlib.COQ / "C24" / "GenUnitary.vo").exists()
     if have_gen:
         files = {}
         for i in range(0, len(recs), 400):
@@ -246,6 +379,39 @@ def run(ctx):
                                 "meaning": "the Coq checker generated from unitary_checker.py and the real one disagree on the same checked AST"})
     elif have_gen:
         ctx.notes.append("model side produced %s results for %d invocations" % (None if model is None else len(model), len(recs)))
+    # ---- contain_qubit_ty: implementation vs structural specification vs generated Coq contains_qubit,
+    #      on the real types of every call argument seen
+    seen = {}
+    for c, k, rec in recs:
+        acc = []
+        for st, bp in rec["blocks"]:
+            for x in st:
+                arg_types(x, acc)
+            arg_types(bp, acc)
+        for t, q in acc:
+            seen.setdefault(t, (q, c))
+    types = sorted(seen)
+    ty_model = None
+    if have_gen and types:
+        try:
+            out = ctx.coq_eval("types", COQ_HEAD + "Definition tys := [\n" + ";\n".join("(if contains_qubit %s then 1 else 0)" % coq_ty(json.loads(t)) for t in types)
+                               + "].\nEval vm_compute in tys.\n")
+            ty_model = vlib.parse_coq_values(out)[0]
+        except Exception as e:  # noqa: BLE001
+            ctx.notes.append(f"contains_qubit evaluation failed: {str(e)[:300]}")
+    ty_bad = 0
+    for i, t in enumerate(types):
+        q, c = seen[t]
+        want = ty_occurs(json.loads(t))
+        got_model = None if ty_model is None else bool(ty_model[i])
+        if q != want or (got_model is not None and got_model != q):
+            ty_bad += 1
+            if ty_bad <= 3:
+                ctx.report(f"contain_qubit_ty:{t}", "counterexample" if q != want else "correspondence",
+                           "contain_qubit_ty on the type of a call argument",
+                           {"type": json.loads(t), "encoding": "Q qubit, L leaf, [O|T, args] opaque/tuple, [S, args, fields] struct",
+                            "qubit_occurs_structurally": want, "contain_qubit_ty": q, "generated_coq_contains_qubit": got_model,
+                            "program_using_it": case_src(c)})
     unmodelled = sorted({u for c in cases for u in results[case_name(c)]["unmodelled"]})
     # ---- specification vs implementation
     by_class, other, agree = {}, {}, 0
@@ -273,7 +439,7 @@ def run(ctx):
                               "PYTHONPATH=/verif/tools:$REPO/guppylang/src:$REPO/guppylang-internals/src /venv/bin/python -c "
                               "'import repo_shim, guppylang; guppylang.enable_experimental_features(); import prog; prog.%s.check()'" % case_name(c)})
     if not info["ok"] and not ctx.violations:   # known findings do not explain a broken proof
-        ctx.report("proof-broken:" + str(info["failed"]), "proof-broken", str(info["failed"]),
+        ctx.report(("translator:" + translator_error) if translator_error else "proof-broken:" + str(info["failed"]), "proof-broken", str(info["failed"]),
                    {"coq_error": vlib.CoqResult(False, info["log"]).error_excerpt(), "searched_cases": len(cases),
                     "translator_reading": {k: str(v) for k, v in tinfo.items()}}, found_input=False)
     # ---- metadata
@@ -302,12 +468,13 @@ def run(ctx):
          "props/C24/impl_unitary.py dumper (checked AST -> model nodes) and tools/repo_shim.py",
          "not modelled: arguments of barrier/state_result, the function expression of a LocalCall, comptime (traced) functions, which never reach check_cfg_unitary"],
         evaluations=len(cases) + len(recs) + len(meta_names), distinct_nontrivial=nontrivial,
-        rule="cases = @guppy functions over function flags(8) x with-modifiers(9) x callee flags(8) x call position(%d); quick = corpus + stratified sample (14 per position x {function, with}), thorough = the whole product; non-trivial = the real check() rejected the program with a unitary/dagger error" % len(POS),
+        rule="cases = @guppy functions over function flags(8) x with-modifiers(9) x callee flags(8) x call position(%d), plus 17 further argument type shapes (qubits at nesting depth 1-3 in arrays/tuples/structs and classical look-alikes) x every call position x 5 contexts; quick = corpus + stratified sample (14 per position x {function, with}), thorough = the whole product; non-trivial = the real check() rejected the program with a unitary/dagger error" % len(POS),
         exhaustive=not ctx.quick,
         traces_validated_against_impl=len(recs) if model is not None else 0, model_impl_mismatches=mismatches,
         programs=len(cases), spec_agreements=agree, spec_disagreement_classes={k: len(v) for k, v in by_class.items()},
         excluded_other_errors={k: len(v) for k, v in other.items()}, unmodelled_constructs_seen=unmodelled,
-        positions=dist, verdicts=verdicts, metadata_programs=len(meta_names), metadata_disagreements=meta_bad,
+        positions=dist, verdicts=verdicts, argument_types_seen=len(types), argument_type_disagreements=ty_bad,
+        argument_shapes={SHAPES[k][0]: sum(1 for c in cases if c.get("sh", 0) == k) for k in range(len(SHAPES))}, metadata_programs=len(meta_names), metadata_disagreements=meta_bad,
         translator_reading={k: str(v) for k, v in tinfo.items()},
         samples=[{"program": case_src(cases[j]), "expected": expected(cases[j]), "observed": results[case_name(cases[j])]["verdict"],
                   "check_cfg_unitary_invocations": results[case_name(cases[j])]["calls"][:2]} for j in (0, len(cases) // 3, len(cases) - 1)],
